@@ -95,18 +95,32 @@ def gen_history(rng, tier, j):
   n = rng.choice([0, 1, 1, 2, 2, 3, 3, 4, 5, 6, 7, 8, 10, 12, hi])
   profile = rng.choice(['clean', 'mixed', 'mixed', 'hostile', 'none-qualify'])
   lattice = rng.choice([1, 2, 2, 3])
+  # value profile of the history: small integers, or values that differ from each
+  # other by far less than their magnitude / than any "defensive" tolerance (near
+  # ties: close is not equal, the definition compares numbers exactly). All but
+  # 'f64' are exactly representable in float32 (GetBestTrials computes in float32).
+  vprof = rng.choice(['lattice', 'lattice', 'lattice', 'lattice', 'near-large', 'near-large',
+                      'near-one', 'near-one', 'tiny', 'f64'])
+  bases, step = value_profile(rng, vprof, n_obj)
   # how trials list their metrics: all in configuration order / all in one other
   # order / every trial in its own order (two generations of a training script)
   order_profile = rng.choice(['config', 'config', 'consistent', 'shuffled', 'shuffled',
                               'shuffled'])
 
-  def val():
+  def val(d):
     if rng.random() < 0.06:
       return rng.choice([INF, -INF])
-    return float(rng.randint(0, lattice))
+    if vprof == 'tiny':
+      return rng.randint(-lattice, lattice) * step
+    return bases[d] + rng.randint(0, lattice) * step
 
   def tempting():
-    return [(3.0 if g == 'MAX' else -3.0) for g in goals]
+    # at least as good as anything val() produces (for the near-tie profiles: only
+    # just better)
+    if vprof == 'lattice':
+      return [(3.0 if g == 'MAX' else -3.0) for g in goals]
+    return [b + ((lattice + 1) * step if g == 'MAX' else -(lattice + 1) * step)
+            for g, b in zip(goals, bases)]
 
   def violates(t):
     for s, x in zip(safeties, t['ss']):
@@ -129,11 +143,17 @@ def gen_history(rng, tier, j):
     if k in ('ok', 'extra', 'missing', 'nan') or (
         k in ('infeasible', 'active', 'stopping') and rng.random() < 0.6):
       # non-qualifying trials get tempting values: at least as good as anything
-      t['v'] = [val() for _ in goals]
+      t['v'] = [val(d) for d in range(n_obj)]
       if k in ('infeasible', 'active', 'stopping', 'missing', 'nan') and rng.random() < 0.5:
         t['v'] = tempting()
       t['ss'] = [float(rng.randint(0, 2)) if rng.random() < p_report else None
                  for _ in safeties]
+      if vprof != 'lattice':
+        # safety values within a hair of their threshold (on it / just within / just
+        # beyond); 2**-20 steps (2**-40 at 0) are float32-exact next to thresholds 0.5, 1, 2
+        t['ss'] = [x if x is None or rng.random() < 0.4
+                   else s['thr'] + rng.randint(-1, 1) * (2.0 ** -20 if s['thr'] else 2.0 ** -40)
+                   for s, x in zip(safeties, t['ss'])]
       if k in ('ok', 'extra') and violates(t) and rng.random() < 0.4:
         # so do trials that break a safety threshold: whether they are seen as
         # unsafe then decides the answer
@@ -166,7 +186,7 @@ def gen_history(rng, tier, j):
       src = rng.choice(oks)
       trials[rng.randrange(n)] = {'k': 'ok', 'v': list(src['v']), 'ss': list(src['ss'])}
   spec = {'kind': 'history', 'goals': goals, 'names': names, 'safeties': safeties,
-          'cfg': cfg, 'trials': trials, 'order_profile': order_profile,
+          'cfg': cfg, 'trials': trials, 'order_profile': order_profile, 'vprof': vprof,
           'mode': 'rpc' if j % 4 == 0 else 'direct',
           'count': rng.choice([None, None, None, 1, 2, 3, 5]), 'index': j}
   # reporting order of every trial
@@ -184,6 +204,42 @@ def gen_history(rng, tier, j):
         rng.shuffle(reported)
       t['ord'] = reported
   return spec
+
+
+def value_profile(rng, vprof, n_obj):
+  """(base value per objective, step between neighbouring values)."""
+  if vprof == 'near-large':     # e.g. a latency in ns: unit steps on ~1e6
+    return [rng.choice([2.0 ** 20, -2.0 ** 20, 2.0 ** 22, 1000000.0])
+            for _ in range(n_obj)], 1.0
+  if vprof == 'near-one':       # e.g. accuracies agreeing in the first 6 digits
+    return [rng.choice([1.0, -1.0, 0.5, 2.0, -0.75]) for _ in range(n_obj)], 2.0 ** -20
+  if vprof == 'tiny':           # several values far below 1e-8, both signs and zero
+    return [0.0] * n_obj, 2.0 ** -40
+  if vprof == 'f64':            # distinctions only float64 can hold
+    return [rng.choice([1.0, -1.0, 1000000.0, 0.1]) for _ in range(n_obj)], 2.0 ** -30
+  return [0.0] * n_obj, 1.0
+
+
+def float32_exact(spec):
+  import numpy as np
+  for t in spec['trials']:
+    for x in list(t['v'] or []) + list(t['ss']):
+      if x is not None and x == x and float(np.float32(x)) != float(x):
+        return False
+  return True
+
+
+def near(a, b):
+  """Different numbers that a tolerance of ~1e-4 relative / 1e-7 absolute would
+  take for equal."""
+  if a == b or a != a or b != b or math.isinf(a) or math.isinf(b):
+    return False
+  return abs(a - b) <= 1e-7 + 1e-4 * max(abs(a), abs(b))
+
+
+def near_tied(p, q):
+  """Vectors p != q whose coordinates are pairwise equal or near."""
+  return p != q and all(a == b or near(a, b) for a, b in zip(p, q))
 
 
 # ---------------------------------------------------------------------------
@@ -435,7 +491,7 @@ def build_rpc(servicer, study_name, spec, T):
   return idmap
 
 
-def _classify_set(prefix, got_idx, primary_front, primary_q, T):
+def _classify_set(prefix, got_idx, primary_front, primary_q, T, vec=None):
   """Shape of the disagreement with the subject's own reading of the property."""
   mechs = []
   nonq = sorted({T[i]['k'] for i in got_idx if T[i]['k'] not in QUALIFYING})
@@ -444,10 +500,21 @@ def _classify_set(prefix, got_idx, primary_front, primary_q, T):
   # qualifying by kind but not by that reading (e.g. safety metric absent)
   if any(T[i]['k'] in QUALIFYING and i not in primary_q for i in got_idx):
     mechs.append(f'{prefix}:non-qualifying-reported:safety-reading')
-  if any(i in primary_q and i not in primary_front for i in got_idx):
-    mechs.append(f'{prefix}:dominated-reported')
-  if any(i not in got_idx for i in primary_front):
-    mechs.append(f'{prefix}:optimal-missing')
+  dom = [i for i in got_idx if i in primary_q and i not in primary_front]
+  if dom:
+    # every dominated trial reported is within a hair of an optimal one: "close to
+    # the best" was taken for "attains the best"
+    if vec and all(any(near_tied(vec[i], vec[j]) for j in primary_front) for i in dom):
+      mechs.append(f'{prefix}:dominated-reported:near-tie-with-an-optimal-trial')
+    else:
+      mechs.append(f'{prefix}:dominated-reported')
+  miss = [i for i in primary_front if i not in got_idx]
+  if miss:
+    if vec and got_idx and all(
+        any(near_tied(vec[i], vec[j]) for j in got_idx if j in vec) for i in miss):
+      mechs.append(f'{prefix}:optimal-missing:near-tie-with-a-reported-trial')
+    else:
+      mechs.append(f'{prefix}:optimal-missing')
   return mechs or [f'{prefix}:unclassified']
 
 
@@ -602,7 +669,8 @@ def decide(ctx, case, prefix, ids, idmap, fronts, interp, T, primary, agrees=Non
   if nan_reported:
     mechs.append(f'{prefix}:nan-objective-trial-reported')
   if not (nan_reported and any(fr == rest for fr in fronts.values())):
-    mechs += [m for m in _classify_set(prefix, rest, fronts[pname], interp[pname][0], T)
+    mechs += [m for m in _classify_set(prefix, rest, fronts[pname], interp[pname][0], T,
+                                       interp[pname][1])
               if m not in mechs]
   suffix = presentation_suffix(case, agrees) if agrees else ''
   for mech in mechs:
@@ -845,7 +913,8 @@ def check_history(ctx, spec, S):
   cfg = spec['cfg']
   cfg_shape = ''.join('o' if n in spec['names'] else 's' for n in cfg)
   ctx.case(['history', goals, cfg_shape, cfg == sorted(cfg), kinds, len(front),
-            spec['mode'], spec['count'], spec.get('order_profile')], nontrivial=nontrivial)
+            spec['mode'], spec['count'], spec.get('order_profile'), spec.get('vprof')],
+           nontrivial=nontrivial)
   if any(k not in QUALIFYING for k in kinds):
     ctx.count('hist:with_nonqualifying')
   for k in set(kinds):
@@ -882,10 +951,26 @@ def check_history(ctx, spec, S):
   vecs = list(interp[pname][1].values())
   if len({tuple(v) for v in vecs}) < len(vecs):
     ctx.count('hist:with_duplicate_vectors')
+  # near ties: a dominated qualifying trial within a hair of an optimal one, so
+  # that "close" taken for "equal" changes the answer
+  vec = interp[pname][1]
+  if any(near_tied(vec[i], vec[j]) for i in vec if i not in front for j in front):
+    ctx.count('hist:near_tie_decides_answer')
+    ctx.count('hist:near_tie_decides_answer:' + ('single' if len(goals) == 1 else 'multi'))
+  f32 = float32_exact(spec)
+  if not f32:
+    ctx.count('hist:values_only_float64_holds')
+  for s, thr_i in zip(spec['safeties'], range(len(spec['safeties']))):
+    if any(t['ss'][thr_i] is not None and near(t['ss'][thr_i], s['thr']) for t in T):
+      ctx.count('hist:safety_value_near_threshold')
+      break
   try:
     check_service(ctx, spec, S, fronts, interp, T)
   except Exception as e:  # pylint: disable=broad-except
     import traceback
     ctx.inconclusive_reason(f'harness/service error on history {spec["index"]}: '
                             f'{type(e).__name__}: {e} :: ' + traceback.format_exc()[-600:])
-  check_getbest(ctx, spec, fronts, interp, T)
+  if f32:
+    check_getbest(ctx, spec, fronts, interp, T)
+  else:
+    ctx.count('hist:getbest_skipped_values_not_float32_exact')
